@@ -320,14 +320,14 @@ func newTimestampSelector(arg parser.Expr, storage *engstore.SelectorPool, opts 
 		op, err := step_invariant.NewStepInvariantOperator(model.NewVectorPool(stepsBatch), next, e.Expr, opts, stepsBatch)
 		return op, err == nil, err
 	case *parser.VectorSelector:
-		start, end := getTimeRangesForVectorSelector(e, opts, 0)
+		start, end := timestampTimeRanges(e, opts)
 		hints.Start = start
 		hints.End = end
 		selector := storage.GetSelector(start, end, opts.Step.Milliseconds(), e.LabelMatchers, hints)
 		op, err := newShardedVectorSelector(selector, opts, timestampOffset(e), true)
 		return op, err == nil, err
 	case *logicalplan.FilteredSelector:
-		start, end := getTimeRangesForVectorSelector(e.VectorSelector, opts, 0)
+		start, end := timestampTimeRanges(e.VectorSelector, opts)
 		hints.Start = start
 		hints.End = end
 		selector := storage.GetFilteredSelector(start, end, opts.Step.Milliseconds(), e.LabelMatchers, e.Filters, hints)
@@ -346,6 +346,18 @@ func timestampOffset(vs *parser.VectorSelector) time.Duration {
 		return vs.Offset - vs.OriginalOffset
 	}
 	return vs.Offset
+}
+
+// timestampTimeRanges is the time range timestamp() reads its selector in:
+// the range of the selector, moved back by the offset that timestampOffset
+// leaves without effect, so that the select asks for what is read.
+func timestampTimeRanges(vs *parser.VectorSelector, opts *query.Options) (int64, int64) {
+	start, end := getTimeRangesForVectorSelector(vs, opts, 0)
+	if vs.Timestamp != nil {
+		offset := vs.OriginalOffset.Milliseconds()
+		return start + offset, end + offset
+	}
+	return start, end
 }
 
 func unpackVectorSelector(t *parser.MatrixSelector) (*parser.VectorSelector, []*labels.Matcher, error) {
